@@ -74,6 +74,7 @@ func genCache(r *prng.R, n int) []string {
 	}
 	vals := []string{"", "x", "x", "yy", "yy", "zzzz", "0123456789"}
 	ttls := []int{-1, 0, 1, 1, 1, 2, 2, 4, 8}
+	gated := r.Chance(50)
 	for len(tl.ops) <= n {
 		k := proto.Enc(prng.Pick(r, keys))
 		switch x := r.Intn(100); {
@@ -87,6 +88,21 @@ func genCache(r *prng.R, n int) []string {
 			tl.ops = append(tl.ops, "has k="+k)
 		case x < 68:
 			tl.ops = append(tl.ops, "del k="+k)
+		case x < 80 && gated:
+			// concurrent callers: park a Set before its insert / a Get or Has after its lookup, release later
+			id := 1 + r.Intn(4)
+			switch r.Intn(6) {
+			case 0, 1:
+				ttl := prng.Pick(r, ttls)
+				tl.ops = append(tl.ops, fmt.Sprintf("cset id=%d k=%s v=%s ttl8=%d", id, k, proto.Enc(prng.Pick(r, vals)), ttl))
+				tl.mark(tl.now + int64(ttl)*ttlUnit)
+			case 2:
+				tl.ops = append(tl.ops, fmt.Sprintf("cget id=%d k=%s", id, k))
+			case 3:
+				tl.ops = append(tl.ops, fmt.Sprintf("chas id=%d k=%s", id, k))
+			default:
+				tl.ops = append(tl.ops, fmt.Sprintf("crel id=%d", id))
+			}
 		case x < 86:
 			tl.move()
 		case x < 94:
@@ -147,6 +163,53 @@ func genCaching(r *prng.R, n int) []string {
 		case x < 62:
 			tl.ops = append(tl.ops, "req "+key)
 		case x < 82:
+			tl.move()
+		case x < 90:
+			tl.fire()
+		default:
+			tl.ops = append(tl.ops, "probe")
+		}
+	}
+	tl.ops = append(tl.ops, "probe")
+	return tl.ops
+}
+
+// several caching remedies (different TTLs, record and size limits, path configurations) on the one plugin
+func genShared(r *prng.R, n int) []string {
+	t0 := t0base + prng.Pick(r, subSecond)
+	nrem := r.Range(2, 3)
+	type rem struct {
+		ttl   int
+		paths string
+	}
+	var rems []rem
+	cfg := fmt.Sprintf("cfg shared t0=%d", t0)
+	pathChoices := []string{"a", "a", "", "a,b", "b,a", "a,!b"}
+	for i := 0; i < nrem; i++ {
+		rm := rem{ttl: prng.Pick(r, []int{1, 2, 4, 8, 0}), paths: prng.Pick(r, pathChoices)}
+		if i > 0 && r.Chance(50) {
+			rm.paths = rems[0].paths // same key space as remedy 0
+		}
+		rems = append(rems, rm)
+		cfg += fmt.Sprintf(" r%d=%d/%d/%d/%s", i, rm.ttl, prng.Pick(r, []int{0, 5, 1000, 1000}),
+			prng.Pick(r, []int{0, 110, 120, 220, 330, 100000, 100000}), rm.paths)
+	}
+	tl := &timeline{r: r, now: t0, ops: []string{cfg}}
+	pps := []string{"a:1", "a:2", "a:1,b:2", "", "b:2"}
+	bodies := []string{"", "b1", "body2", "longer body 3"}
+	rid := 0
+	for len(tl.ops) <= n {
+		ri := r.Intn(nrem)
+		key := fmt.Sprintf("r=%d m=GET u=a.com/u/1 pp=%s", ri, proto.Enc(prng.Pick(r, pps)))
+		switch x := r.Intn(100); {
+		case x < 30:
+			rid++
+			tl.ops = append(tl.ops, fmt.Sprintf("resp %s id=r%d st=200 body=%s tag=t%d ra=%%n", key, rid,
+				proto.Enc(prng.Pick(r, bodies)), rid))
+			tl.mark(tl.now + int64(rems[ri].ttl)*ttlUnit)
+		case x < 64:
+			tl.ops = append(tl.ops, "req "+key)
+		case x < 84:
 			tl.move()
 		case x < 90:
 			tl.fire()
@@ -242,9 +305,9 @@ func enumerate(alphabet []string, n int, f func([]string)) {
 }
 
 func gen(r *prng.R, f proto.Flags, emit func(proto.Case)) {
-	n := 600
+	n := 800
 	if f.Tier == "thorough" {
-		n = 10000
+		n = 12000
 	}
 	n *= f.Budget
 	id := 0
@@ -252,13 +315,15 @@ func gen(r *prng.R, f proto.Flags, emit func(proto.Case)) {
 		rr := r.Fork()
 		ln := rr.Range(6, 30)
 		var ops []string
-		switch k % 3 {
+		switch k % 4 {
 		case 0:
 			ops = genCache(rr, ln)
 		case 1:
 			ops = genCaching(rr, ln)
-		default:
+		case 2:
 			ops = genThrottle(rr, ln)
+		default:
+			ops = genShared(rr, ln)
 		}
 		ops = maybeMalformed(rr, ops)
 		id++
@@ -277,6 +342,18 @@ func gen(r *prng.R, f proto.Flags, emit func(proto.Case)) {
 			ops := append([]string{fmt.Sprintf("cfg cache t0=%d max=%s", t0base+1, max)}, seq...)
 			ops = append(ops, "get k=a", "get k=b", "probe")
 			emit(proto.Case{ID: fmt.Sprintf("e%d", id), Ops: ops})
+		})
+	}
+	// (1c) concurrent callers: every sequence of 5 over 11 letters (two Sets parked before their insert, a Get
+	//      parked after its lookup, releases in any order, an ordinary Set, expiry, a late sleeper), 2 size limits.
+	alphaG := []string{"cset id=1 k=a v=xx ttl8=1", "cset id=2 k=b v=yy ttl8=1", "cset id=2 k=a v=zz ttl8=2", "crel id=1", "crel id=2",
+		"cget id=3 k=a", "crel id=3", "set k=a v=ww ttl8=1", "skip d=125000001", "fire i=0", "get k=a"}
+	for _, max := range []string{"3", "6"} {
+		enumerate(alphaG, 5, func(seq []string) {
+			id++
+			ops := append([]string{fmt.Sprintf("cfg cache t0=%d max=%s", t0base+1, max)}, seq...)
+			ops = append(ops, "probe", "crel id=1", "crel id=2", "crel id=3", "get k=a", "get k=b", "probe")
+			emit(proto.Case{ID: fmt.Sprintf("k%d", id), Ops: ops})
 		})
 	}
 	// (1b) three stores, then the three pending sleepers released in every order (indices 0..2, 27 sequences),
@@ -326,6 +403,20 @@ func gen(r *prng.R, f proto.Flags, emit func(proto.Case)) {
 			ops := append([]string{fmt.Sprintf("cfg caching t0=%d ttl8=1 maxrec=1000 maxb=%d paths=a", t0base, maxb)}, seq...)
 			ops = append(ops, "req m=GET u=a.com/u pp=a:1", "probe")
 			emit(proto.Case{ID: fmt.Sprintf("c%d", id), Ops: ops})
+		})
+	}
+	// (4) two remedies with the same key space on the shared plugin: every sequence of 5 over 9 letters.
+	alphaS := []string{
+		"resp r=0 m=GET u=a.com/u pp=a:1 id=r1 st=200 body=one tag=t1 ra=%n",
+		"resp r=1 m=GET u=a.com/u pp=a:1 id=r2 st=200 body=two2 tag=%n ra=%n",
+		"req r=0 m=GET u=a.com/u pp=a:1", "req r=1 m=GET u=a.com/u pp=a:1",
+		"skip d=125000000", "skip d=1", "adv d=125000000", "fire i=0", "probe"}
+	for _, lim := range []string{"r0=1/1000/100000/a r1=2/3/100000/a", "r0=2/1000/104/a r1=1/1000/100000/a"} {
+		enumerate(alphaS, 5, func(seq []string) {
+			id++
+			ops := append([]string{fmt.Sprintf("cfg shared t0=%d %s", t0base, lim)}, seq...)
+			ops = append(ops, "req r=0 m=GET u=a.com/u pp=a:1", "probe")
+			emit(proto.Case{ID: fmt.Sprintf("h%d", id), Ops: ops})
 		})
 	}
 	_ = strings.Join
